@@ -275,6 +275,11 @@ class Env:
             "matrix_shape": [int(v) for v in o.matrix_shape],
             "sizes": [int(o.output_size), int(o.input_size)],
         }
+        return self.evaluate(("ok", r, o), xs, ys)
+
+    def evaluate(self, built, xs, ys=None):
+        """evaluate an already built object (result of `observe(e, [], None)`) on inputs - no second construction"""
+        r, o = dict(built[1]), built[2]
         ev, evdt, evsh = [], None, None
         for x in xs:
             try:
